@@ -2,6 +2,7 @@ import SaramaVerif.Driver.Util
 import SaramaVerif.Model.Producer
 import SaramaVerif.Model.IdemBroker
 import SaramaVerif.Model.PartProd
+import SaramaVerif.Model.BrokerProd
 /-
   Replays hook-event traces of the real async producer through Model.Producer.step (trace validation).
   Lines:  reset <retryMax> <icepts> <idem>   |   ev <kind> <id> <a> <b>   |   end <closedSeen>
@@ -9,12 +10,6 @@ import SaramaVerif.Model.PartProd
 -/
 namespace Driver.ProducerTrace
 open Model.Producer Driver
-
-structure DS where
-  st : St
-  failed : Bool
-  brokers : List (Int × Model.IdemBroker.PState) := []   -- partition → leader state for the scenario's producer id
-  pps : List (Int × Model.PartProd.St × List Model.PartProd.Action) := []  -- partition → partition-producer state, expected actions
 
 def getB (l : List (Int × Model.IdemBroker.PState)) (p : Int) : Model.IdemBroker.PState :=
   match l.find? (fun x => x.1 = p) with
@@ -69,6 +64,279 @@ def ppCheck (d : List (Int × Model.PartProd.St × List Model.PartProd.Action)) 
         if same then .ok (setPP d part (st, rest))
         else .error s!"partition producer {part}: expected {repr x}, observed {repr act}"
 
+/-! ### broker workers (Model.BrokerProd)
+
+  Every broker worker of the scenario is replayed through `Model.BrokerProd.step`: each input of its run loop
+  (bp.recv, bp.handover, bp.resp … bp.resp.end) is fed to the model and the actions the real worker takes until
+  its next input (wg.done.syn, bp.bounce, bp.add, retry, ret.err, ret.succ, bp.drop, bp.closing) must equal the
+  model's.  What the hooks do not say is reconstructed:
+    * syn / fin of a marker token: from the partition producer's announcement (wg.add.syn / wg.add.fin) - per
+      partition, announcements and arrivals are in the same order (one sender, unbuffered channel);
+    * which worker an event belongs to: token events by the worker that took the token in (bp.recv), tokens of a
+      partition go to the worker that acknowledged the partition's last syn; events without a token (bp.handover,
+      bp.resp.end, bp.verdict, bp.drop, bp.closing) and the question whether a syn reached the latest worker of
+      its broker id or a newly created one are resolved by keeping every consistent attribution alive (`World`s)
+      and rejecting only when none is left;
+    * the parameters of an input that are visible only in the reaction (wouldOverflow, the verdicts and the map
+      iteration orders): the check of an input is deferred to the worker's next input (`settle`).
+  Idempotent scenarios are not replayed (retryBatch hands sets to other workers' bridges). -/
+namespace BPW
+open Model.BrokerProd
+
+inductive Pend
+  | idle
+  | eager (exp : List Action)     -- model already stepped; these (normalised) actions must be observed
+  | recvTok (t : Tok)             -- token taken in; `overflow` is read off the reaction
+  | respList (ids : List Int)     -- bp.resp events of the answered set are being listed
+  | resp                          -- bp.resp.end seen; verdicts and reactions are being collected
+
+structure BW where
+  key : Nat
+  broker : Int
+  st : Model.BrokerProd.St := {}
+  pend : Pend := .idle
+  obs : List Action := []         -- observed since the pending input, newest first
+  verd : List (Int × Int) := []   -- bp.verdict (partition, code), newest first
+
+structure World where
+  ws : List BW := []
+  att : List (Int × Nat) := []        -- partition → worker that took the partition's last syn
+  holder : List (Int × Nat) := []     -- token id → worker holding it
+  marks : List (Int × Kind) := []     -- announced markers (partition, kind), oldest first
+  known : List (Int × Kind) := []     -- marker id → kind
+  next : Nat := 0
+
+def assocSet {α : Type} (l : List (Int × α)) (k : Int) (v : α) : List (Int × α) := (k, v) :: l.filter (fun x => x.1 != k)
+def assocDel {α : Type} (l : List (Int × α)) (k : Int) : List (Int × α) := l.filter (fun x => x.1 != k)
+
+def getW (wd : World) (k : Nat) : Option BW := wd.ws.find? (fun x => x.key == k)
+def putW (wd : World) (w : BW) : World := { wd with ws := wd.ws.map (fun x => if x.key == w.key then w else x) }
+def holderOf (wd : World) (id : Int) : Option BW := (wd.holder.lookup id).bind (getW wd)
+
+/-- what the hooks can show of an action list: abandonBrokerConnection has no hook, and a spent retry budget
+    and a returned error are both `ret.err` -/
+def norm (as : List Action) : List Action :=
+  as.filterMap fun
+    | .abandon => none
+    | .expire i p => some (.fail i p)
+    | a => some a
+
+def actId : Action → Option Int
+  | .refuse i | .requeue i _ _ | .expire i _ | .add i _ | .succ i _ | .fail i _ => some i
+  | _ => none
+
+def name (w : BW) : String := s!"broker worker {w.broker}#{w.key}"
+
+def cmp (final : Bool) (w : BW) (st' : Model.BrokerProd.St) (exp obs : List Action) : Except String BW :=
+  if exp.contains .disabled then .error s!"{name w}: input not enabled in the model state"
+  else if (if final then obs.isPrefixOf exp else obs == exp) then .ok { w with st := st', pend := .idle, obs := [], verd := [] }
+  else .error s!"{name w}: expected {repr exp}, observed {repr obs}"
+
+/-- reconstruct the response input from what was observed -/
+def respOf (w : BW) (sent : List Tok) (obs : List Action) : Except String Resp :=
+  let verd := w.verd.reverse
+  let waitId := w.st.wait.map (·.id)
+  let core := obs.filter (fun a => actId a != waitId || waitId.isNone)
+  if obs.contains .closing then
+    let leaves := core.filterMap fun | .requeue _ p _ => some p | .fail _ p => some p | _ => none
+    .ok (.connErr (leaves.take sent.length) (leaves.drop sent.length))
+  else if verd.isEmpty then
+    if core.any (fun | .fail _ _ => true | _ => false) then
+      .ok (.encErr (core.filterMap fun | .fail _ p => some p | _ => none))
+    else .ok (.verdicts (fun _ => .ok) (core.filterMap fun | .succ _ p => some p | _ => none) [])
+  else
+    match (partsOf sent).find? (fun p => (verd.lookup p).isNone) with
+    | some p => .error s!"{name w}: no verdict observed for partition {p} of the answered set"
+    | none =>
+      .ok (.verdicts (fun p => match verd.lookup p with | some c => classOf c | none => .ok) (verd.map (·.1))
+            (obs.filterMap fun | .drop p => some p | _ => none))
+
+/-- feed the pending input of a worker to the model and compare (final: the trace ended, a prefix suffices) -/
+def settle (max : Nat) (final : Bool) (w : BW) : Except String BW :=
+  let obs := w.obs.reverse
+  match w.pend with
+  | .idle => if obs.isEmpty then .ok w else .error s!"{name w}: unexpected {repr obs}"
+  | .eager exp => cmp final w w.st exp obs
+  | .recvTok t =>
+    if final && obs.isEmpty then .ok { w with pend := .idle }
+    else
+      let r := Model.BrokerProd.step max w.st (.recv t obs.isEmpty)
+      cmp final w r.1 (norm r.2) obs
+  | .respList _ => if final then .ok { w with pend := .idle, obs := [] } else .error s!"{name w}: response listing not terminated"
+  | .resp =>
+    if final then .ok { w with pend := .idle, obs := [], verd := [] }
+    else match w.st.sets with
+      | [] => .error s!"{name w}: response without a set in flight"
+      | sent :: _ =>
+        match respOf w sent obs with
+        | .error m => .error m
+        | .ok r =>
+          let still := match w.st.wait with
+            | some t => !(obs.contains (.add t.id t.part))
+            | none => false
+          let x := Model.BrokerProd.step max w.st (.resp r still)
+          cmp final w x.1 (norm x.2) obs
+
+def pristine (max : Nat) (w : BW) : Bool :=
+  match settle max false w with
+  | .ok w' => !w'.st.closing && w'.st.buffer.isEmpty && w'.st.sets.isEmpty && w'.st.wait.isNone
+  | .error _ => false
+
+/-- push an observed action to the worker that holds token `id`; `leave` = the token is gone afterwards -/
+def observe (wd : World) (id : Int) (act : Action) (leave must : Bool) : List (Except String World) :=
+  match holderOf wd id with
+  | none => if must then [.error s!"broker worker event {repr act} for a token no worker holds"] else [.ok wd]
+  | some w =>
+    let wd' := putW wd { w with obs := act :: w.obs }
+    [.ok (if leave then { wd' with holder := assocDel wd'.holder id } else wd')]
+
+def orErr (l : List (Except String World)) (m : String) : List (Except String World) :=
+  if l.isEmpty then [.error m] else l
+
+/-- one hook event in one world: every consistent continuation (or an error) -/
+def wstep (max : Nat) (wd : World) (kind : String) (id a b p : Int) : List (Except String World) :=
+  match kind with
+  | "wg.add.syn" => [.ok { wd with marks := wd.marks ++ [(a, Kind.syn)] }]
+  | "wg.add.fin" => [.ok { wd with marks := wd.marks ++ [(a, Kind.fin)] }]
+  | "bp.recv" =>
+    let kd : Except String (Kind × World) :=
+      if id > 0 then .ok (.data, wd)
+      else match wd.known.lookup id with
+        | some k => .ok (k, wd)
+        | none =>
+          match wd.marks.find? (fun x => x.1 == p) with
+          | some x => .ok (x.2, { wd with marks := wd.marks.eraseP (fun x => x.1 == p), known := (id, x.2) :: wd.known })
+          | none => .error s!"bp.recv of marker {id} for partition {p} that no partition producer announced"
+    match kd with
+    | .error m => [.error m]
+    | .ok (k, wd) =>
+      let tok : Tok := { id := id, part := p, retries := a.toNat, kind := k }
+      let deliver (w : BW) (wd : World) : Except String World :=
+        match settle max false w with
+        | .error m => .error m
+        | .ok w' =>
+          let wd := putW wd { w' with pend := .recvTok tok }
+          .ok { wd with holder := assocSet wd.holder id w.key,
+                        att := if k == .syn then assocSet wd.att p w.key else wd.att }
+      if k == .syn then
+        let fresh : BW := { key := wd.next, broker := b }
+        let wdNew : World := { wd with ws := wd.ws ++ [fresh], next := wd.next + 1 }
+        -- the partition producer took its worker when it announced the syn: any worker of this broker id that
+        -- exists by now, or one that this world has not seen yet.  A worker in the initial state (up to
+        -- currentRetries, which the syn resets for this partition) behaves like a new one: one representative.
+        let cands := (wd.ws.filter (fun w => w.broker == b)).reverse
+        let used := cands.filter (fun w => !pristine max w)
+        let blank := match cands.find? (pristine max) with
+          | some l => deliver l wd
+          | none => deliver fresh wdNew
+        (used.filter (fun w => !w.st.closing)).map (fun w => deliver w wd) ++ [blank] ++
+          (used.filter (fun w => w.st.closing)).map (fun w => deliver w wd)
+      else
+        match (wd.att.lookup p).bind (getW wd) with
+        | none => [.error s!"token {id} of partition {p} at broker {b}, but the partition is attached to no worker"]
+        | some w =>
+          if w.broker != b then [.error s!"token {id} of partition {p} at broker {b}, but the partition is attached to {name w}"]
+          else [deliver w wd]
+  | "wg.done.syn" => observe wd id (.ackSyn a) true true
+  | "bp.bounce" => observe wd id (.refuse id) false true
+  | "bp.add" => observe wd id (.add id p) false true
+  | "retry" => observe wd id (.requeue id p a.toNat) true false
+  | "ret.err" => observe wd id (.fail id p) true false
+  | "ret.succ" => observe wd id (.succ id p) true false
+  | "bp.handover" =>
+    orErr ((wd.ws.filter (fun w => w.broker == a)).map fun w =>
+      match settle max false w with
+      | .error m => .error m
+      | .ok w' =>
+        if (b == 2) != w'.st.wait.isSome then .error s!"{name w}: bp.handover site {b} does not fit waitForSpace state"
+        else
+          let r := Model.BrokerProd.step max w'.st .handover
+          if r.2.contains .disabled then .error s!"{name w}: handover while a set is in flight"
+          else .ok (putW wd { w' with st := r.1, pend := .eager (norm r.2) }))
+      s!"bp.handover at broker {a} without a worker"
+  | "bp.resp" =>
+    match holderOf wd id with
+    | none => [.error s!"bp.resp lists token {id} that no worker holds"]
+    | some w =>
+      if w.broker != a then [.error s!"bp.resp at broker {a} lists token {id} held by {name w}"]
+      else match w.pend with
+        | .respList ids => [.ok (putW wd { w with pend := .respList (ids ++ [id]) })]
+        | _ =>
+          match settle max false w with
+          | .error m => [.error m]
+          | .ok w' => [.ok (putW wd { w' with pend := .respList [id] })]
+  | "bp.resp.end" =>
+    -- the listed set must be the set in flight (an empty set has no bp.resp events at all)
+    orErr ((wd.ws.filter (fun w => w.broker == a)).filterMap fun w =>
+      match w.pend with
+      | .respList ids =>
+        match w.st.sets with
+        | sent :: _ =>
+          let ord := ids.filterMap (fun i => (sent.find? (fun t => t.id == i)).map (·.part))
+          if (arrange (ord ++ partsOf sent) sent).map (·.id) == ids then some (.ok (putW wd { w with pend := .resp, obs := [], verd := [] }))
+          else some (.error s!"{name w}: response for {repr ids}, but the set in flight is {repr (sent.map (·.id))}")
+        | [] => some (.error s!"{name w}: response without a set in flight")
+      | .resp => none
+      | _ =>
+        match settle max false w with
+        | .ok w' => match w'.st.sets with
+          | [] :: _ => some (.ok (putW wd { w' with pend := .resp, obs := [], verd := [] }))
+          | _ => none
+        | .error _ => none)
+      s!"bp.resp.end at broker {a} without a listed set"
+  | "bp.verdict" =>
+    orErr ((wd.ws.filter (fun w => (match w.pend, w.st.sets with
+        | .resp, sent :: _ => (partsOf sent).contains a && (w.verd.lookup a).isNone
+        | _, _ => false))).map fun w => .ok (putW wd { w with verd := (a, b) :: w.verd }))
+      s!"bp.verdict for partition {a} fits no worker that is handling a response"
+  | "bp.drop" =>
+    orErr ((wd.ws.filter (fun w => w.broker == b && (match w.pend with | .resp => true | _ => false)
+        && (w.verd.lookup a).isSome)).map fun w => .ok (putW wd { w with obs := .drop a :: w.obs }))
+      s!"bp.drop of partition {a} at broker {b} fits no worker that is handling a response"
+  | "bp.closing" =>
+    orErr ((wd.ws.filter (fun w => w.broker == a && (match w.pend with | .resp => true | _ => false)
+        && w.obs.isEmpty && w.verd.isEmpty)).map fun w => .ok (putW wd { w with obs := [.closing] }))
+      s!"bp.closing at broker {a} fits no worker that is handling a response"
+  | _ => [.ok wd]
+
+/-- end of the trace: every pending input must be consistent with a prefix of the model's reaction -/
+def wend (max : Nat) (wd : World) : Except String World :=
+  match wd.ws.filterMap (fun w => match settle max true w with | .error m => some m | .ok _ => none) with
+  | m :: _ => .error m
+  | [] => .ok wd
+
+def successes (l : List (Except String World)) : List World :=
+  l.filterMap fun | .ok w => some w | .error _ => none
+
+def firstError (l : List (Except String World)) : String :=
+  match l.filterMap (fun | .error m => some m | .ok _ => none) with
+  | m :: _ => m
+  | [] => "no consistent attribution"
+
+/-- all worlds, one event; at most 16 attributions are kept (most plausible first) -/
+def bpCheck (max : Nat) (wds : List World) (kind : String) (id a b p : Int) : Except String (List World) :=
+  let r := wds.flatMap (fun wd => wstep max wd kind id a b p)
+  match successes r with
+  | [] => .error (firstError r)
+  | l => .ok (l.take 16)
+
+def bpEnd (max : Nat) (wds : List World) : Except String Unit :=
+  let r := wds.map (wend max)
+  match successes r with
+  | [] => .error (firstError r)
+  | _ => .ok ()
+
+end BPW
+
+structure DS where
+  st : St
+  failed : Bool
+  brokers : List (Int × Model.IdemBroker.PState) := []   -- partition → leader state for the scenario's producer id
+  pps : List (Int × Model.PartProd.St × List Model.PartProd.Action) := []  -- partition → partition-producer state, expected actions
+  rmax : Nat := 0                  -- Producer.Retry.Max of the scenario
+  bpOn : Bool := false             -- broker workers are replayed (not idempotent)
+  bws : List BPW.World := [{}]     -- consistent attributions of the events to broker workers
+
 def showVerdict : Model.IdemBroker.Verdict → String
   | .appended b => s!"app {b}"
   | .duplicate b => s!"dup {b}"
@@ -102,7 +370,8 @@ def toEv (kind : String) (id a : Int) : Option Ev :=
 def step (d : DS) (t : List String) : DS × String :=
   match t with
   | ["reset", rm, ic, idem] =>
-    ({ st := init { retryMax := nat! rm, icepts := nat! ic, idem := idem = "1" }, failed := false, brokers := [], pps := [] }, "ok")
+    ({ st := init { retryMax := nat! rm, icepts := nat! ic, idem := idem = "1" }, failed := false, brokers := [], pps := [],
+       rmax := nat! rm, bpOn := idem != "1", bws := [{}] }, "ok")
   | ["bb", p, epoch, firstSeq, payloads] =>
     -- one batch arriving at the leader of partition p (simulated cluster ↔ Model.IdemBroker.arrive)
     let st := getB d.brokers (int! p)
@@ -117,12 +386,20 @@ def step (d : DS) (t : List String) : DS × String :=
       | .error m => ({ d with failed := true }, s!"reject: {m}")
       | .ok s' =>
         match ppCheck d.pps kind (int! id) (int! a) (int! b) (int! p) with
-        | .ok pps' => ({ d with st := s', pps := pps' }, "ok")
         | .error m => ({ d with failed := true }, s!"reject: {m}")
+        | .ok pps' =>
+          if !d.bpOn then ({ d with st := s', pps := pps' }, "ok")
+          else match BPW.bpCheck d.rmax d.bws kind (int! id) (int! a) (int! b) (int! p) with
+            | .ok bws' => ({ d with st := s', pps := pps', bws := bws' }, "ok")
+            | .error m => ({ d with failed := true }, s!"reject: {m}")
   | ["end", c] =>
     if d.failed then (d, "ok")
     else if c = "1" ∧ ¬ d.st.closed then (d, "reject: channels closed without close event")
     else if c = "1" ∧ d.st.live ≠ [] then (d, "reject: closed with live messages")
+    else if d.bpOn then
+      match BPW.bpEnd d.rmax d.bws with
+      | .ok _ => (d, "ok")
+      | .error m => (d, s!"reject: {m}")
     else (d, "ok")
   | _ => (d, "bad-op")
 
